@@ -23,7 +23,8 @@ Steps == Setup \cup Queries
 Init == InitWith(Cfg, Pre)
 Next == NextWith(Steps)
 Spec == Init /\ [][Next]_vars
-Depth == 4
+Depth == 5
+DepthT == 6
 Constraint == Len(hist) <= Len(Pre) + Depth
 ASSUME PrintT(<<"CFG", ToJson(CfgJson(Cfg))>>)
 =============================================================================
